@@ -17,6 +17,7 @@ static struct { const char *name; int (*fn)(FILE *, FILE *); } cmds[] = {
     {"tool", cmd_tool},
     {"fault", cmd_fault},
     {"sched", cmd_sched},
+    {"apiseq", cmd_apiseq},
     {NULL, NULL}
 };
 
